@@ -11,6 +11,7 @@ CONSTANTS
   Root <- ISqrtSmall
   Advs = {2}
   LagVals = {0, 1, 2}
+  RootVals = {1, 2}
   TokIds = {1, 2}
   N = 2
   T0 = 5
